@@ -232,8 +232,10 @@ def run_order(spec, res):
     res.sig = "order|%s|%s" % (spec["case"], method)
     res.nontrivial = True
     res.sample = dict(case=spec["case"], method=method, successive_differences=d, observed_orders=orders)
-    if not all(lo <= o <= hi for o in orders):
-        res.violate("order_of_convergence", "%s %s: successive differences %s give orders %s outside [%.2f, %.2f]" % (
+    # "shrinks at the method's order": no pair may fall short of it; the coarsest pair may still be pre-asymptotic (fast
+    # transients under-resolved at 1/30 s converge faster at first), the finest pair has to have settled near the order
+    if not (all(o >= lo for o in orders) and orders[-1] <= hi + 0.3):
+        res.violate("order_of_convergence", "%s %s: successive differences %s give orders %s; every pair must reach %.2f and the finest stay below %.2f + 0.3" % (
             spec["case"], method, ["%.3e" % x for x in d], ["%.2f" % o for o in orders], lo, hi), orders=orders)
 
 
